@@ -285,10 +285,12 @@ class HierOps:
                 if len(common) >= 1:
                     a = ch.choice(common)
                     b = ch.choice(common)
-                    open_end = ch.weighted([('none', 5), ('a', 2), ('b', 2)])
+                    open_end = ch.weighted([('none', 5), ('a', 2), ('b', 2), ('both', 1 if d == m.depth - 1 else 0)])
                     ok = all(p.index(norm(a)) <= p.index(norm(b)) for p in parents.values()) or open_end != 'none'
                     if ok:
-                        sel = {'k': 'slice', 'a': enc(a) if open_end != 'a' else None, 'b': enc(b) if open_end != 'b' else None}
+                        sel = {'k': 'slice', 'a': enc(a) if open_end not in ('a', 'both') else None, 'b': enc(b) if open_end not in ('b', 'both') else None}
+                        if d == m.depth - 1 and (open_end == 'both' or ch.chance(0.3)):
+                            sel['step'] = 2  # every second label of the range, within each selected parent
                         sels.append(sel)
                         na = norm(a) if sel['a'] is not None else None
                         nb = norm(b) if sel['b'] is not None else None
@@ -751,6 +753,8 @@ class HierOps:
                 if (a is not None and a not in labs) or (b is not None and b not in labs):
                     return None
                 pick = groups[(labs.index(a) if a is not None else 0): (labs.index(b) + 1 if b is not None else len(labs))]
+                if s.get('step'):
+                    pick = pick[::s['step']]
             elif s['k'] == 'mask':
                 return [i for i in rows if s['v'][i]] if len(s['v']) == n else None
             out = []
@@ -782,7 +786,7 @@ class HierOps:
             elif s['k'] == 'list':
                 parts.append([dec(x) for x in s['v']])
             elif s['k'] == 'slice':
-                parts.append(slice(dec(s['a']) if s['a'] is not None else None, dec(s['b']) if s['b'] is not None else None))
+                parts.append(slice(dec(s['a']) if s['a'] is not None else None, dec(s['b']) if s['b'] is not None else None, s.get('step')))
             elif s['k'] == 'mask':
                 parts.append(np.array(s['v'], dtype=bool))
         return sf.HLoc[tuple(parts)] if len(parts) > 1 else sf.HLoc[parts[0]]
